@@ -51,7 +51,9 @@ API is not documented anywhere in /repo); three modes are therefore provided for
            has_perm imply;
   deny   - reading-independent upper bound: an attribute for which neither side(t) nor side(r) holds must be denied;
   grant  - reading-independent lower bound: side(t) and (no reverse or side(r)) => granted.
-`deny` and `grant` are implied by `exact`, by the OR reading ("either side suffices") and by every reading in between.
+`deny` and `grant` are implied by `exact`, by the OR reading ("either side suffices") and by every reading in between;
+`attr_rule_order` asserts, equally reading-independent, that the answer does not depend on the order in which the
+Python set of rules happens to iterate.
 Roles and labels are not consulted for entity and attribute targets (there is no object to ask about).
 `object_exclusions_rest` / `to_json_objects_rest` leave out the objects whose entity some rule excludes (the region of
 the object-level finding) so that the remaining space is still decided while that finding exists.
@@ -423,7 +425,14 @@ def mismatches(rules, userkind, g_any, g_user, roles, labels, kinds, mode='exact
     """list of (query, kind, target, order index, answers, (lower, exact, upper)) where the real code leaves the reference"""
     exp = expected(rules, userkind, g_any, g_user, roles, labels, kinds, queries)
     bad = []
-    for i, got in enumerate(ask(rules, userkind, g_any, g_user, roles, labels, kinds, queries, trace_decl)):
+    results = ask(rules, userkind, g_any, g_user, roles, labels, kinds, queries, trace_decl)
+    if mode == 'order':
+        # reading-independent: the answer may not depend on the iteration order of the rule sets, nor on the repetition
+        for key in results[0]:
+            answers = tuple(a for got in results for a in got[key])
+            if len(set(answers)) > 1: bad.append((key[0], key[1], key[2], 'order', answers, exp[key]))
+        return bad
+    for i, got in enumerate(results):
         for key, answers in got.items():
             if skip is not None and skip(key[1], key[2]): continue
             lo, ex, up = exp[key]
@@ -520,6 +529,17 @@ for _mode in ('exact', 'deny', 'grant'):
         ATTR_HARNESSES.append(_h.__name__)
 
 
+def attr_rule_order(e1: bool, m1: bool, x1: int, a1: int, e2: bool, m2: bool, a2: int) -> bool:
+    """
+    pre: 0 <= x1 < 3 and 0 <= a1 < 3 and 0 <= a2 < 3
+    post: _
+    """
+    # both rules cover A (so they share A's rule set); asserted: same answers under both iteration orders of that set
+    rules = [rule('view', ('A', 'B') if e1 else ('A',), _grp(m1), xe=pick(XE_T[:3], x1), xa=pick(XA_T[:3], a1)),
+             rule('view', ('A', 'B') if e2 else ('A',), _grp(m2), xa=pick(XA_T[:3], a2))]
+    return ok(check(rules, 'attr', 'order', g_user=('g1',), queries=('view',)))
+
+
 # ---- object targets
 def object_conditions(g1: bool, r1: bool, l1: bool, g2: bool, r2: bool, l2: bool, ug: bool, ur: bool, ol: bool) -> bool:
     """
@@ -538,8 +558,8 @@ def object_conditions(g1: bool, r1: bool, l1: bool, g2: bool, r2: bool, l2: bool
 
 
 def _object_excl(rest, e1, m1, x1, e2, m2, x2):
-    rules = [rule('view', pick(ESET_T[:3], e1), _grp(m1), xe=pick(XE_T, x1)),
-             rule('view', pick(ESET_T[:3], e2), _grp(m2), xe=pick(XE_T, x2))]
+    rules = [rule('view', pick(ESET_T[:N_E_ENT], e1), _grp(m1), xe=pick(XE_T, x1)),
+             rule('view', pick(ESET_T[:N_E_ENT], e2), _grp(m2), xe=pick(XE_T, x2))]
     skip = None
     if rest:
         region = excluded_somewhere(rules)
@@ -549,7 +569,7 @@ def _object_excl(rest, e1, m1, x1, e2, m2, x2):
 
 def object_exclusions(e1: int, m1: bool, x1: int, e2: int, m2: bool, x2: int) -> bool:
     """
-    pre: 0 <= e1 < 3 and 0 <= x1 < N_XE and 0 <= e2 < 3 and 0 <= x2 < N_XE
+    pre: 0 <= e1 < N_E_ENT and 0 <= x1 < N_XE and 0 <= e2 < N_E_ENT and 0 <= x2 < N_XE
     post: _
     """
     return ok(_object_excl(False, e1, m1, x1, e2, m2, x2))
@@ -557,7 +577,7 @@ def object_exclusions(e1: int, m1: bool, x1: int, e2: int, m2: bool, x2: int) ->
 
 def object_exclusions_rest(e1: int, m1: bool, x1: int, e2: int, m2: bool, x2: int) -> bool:
     """
-    pre: 0 <= e1 < 3 and 0 <= x1 < N_XE and 0 <= e2 < 3 and 0 <= x2 < N_XE
+    pre: 0 <= e1 < N_E_ENT and 0 <= x1 < N_XE and 0 <= e2 < N_E_ENT and 0 <= x2 < N_XE
     post: _
     """
     return ok(_object_excl(True, e1, m1, x1, e2, m2, x2))
@@ -732,7 +752,7 @@ def schema(e1: int, m1: bool, x1: int, a1: int, e2: int, a2: int) -> bool:
         return ok(all(g == want for g in got))
 
 
-HARNESSES = (['entity_p1_view', 'entity_p1_edit'] + ATTR_HARNESSES +
+HARNESSES = (['entity_p1_view', 'entity_p1_edit'] + ATTR_HARNESSES + ['attr_rule_order'] +
              ['object_conditions', 'object_exclusions', 'object_exclusions_rest', 'object_userkinds', 'groups', 'roles', 'labels',
               'permissions', 'to_json_objects', 'to_json_objects_rest', 'schema'])
 
@@ -752,6 +772,8 @@ def explain(fn_name, cex):
         keys = set()
         ug = user_groups_of(LAST['userkind'], LAST['g_any'], LAST['g_user'])
         for q, kind, n, order, answers, (lo, ex, up) in LAST['bad']:
+            if order == 'order':
+                keys.add('5:%s-answer-depends-on-rule-iteration-order' % kind); continue
             got = answers[0] if answers[0] != ex else answers[-1]
             if kind == 'object':
                 if got is True and OBJ_ENT[n] in excluded_somewhere(rules): keys.add('1:object-entity-exclusion-ignored')
